@@ -99,6 +99,14 @@ def _setup():
     return _STATE
 
 
+def _arr(dense, dtype):
+    """nested list -> ndarray; ('zeros', shape) for arrays with a zero-length extent (a nested list cannot say (0, 3))"""
+    np = _setup()["np"]
+    if isinstance(dense, tuple) and dense and dense[0] == "zeros":
+        return np.zeros(tuple(dense[1]), dtype=dtype)
+    return np.array(dense, dtype=dtype)
+
+
 def _mk(d):
     """operand descriptor -> object"""
     st = _setup()
@@ -106,7 +114,7 @@ def _mk(d):
     t = d[0]
     if t == "sp":
         _t, fmt, ca, dense, fill, dtype = d
-        arr = np.array(dense, dtype=dtype)
+        arr = _arr(dense, dtype)
         c = sparse.COO.from_numpy(arr, fill_value=fill)
         if fmt == "coo":
             return c
@@ -114,10 +122,10 @@ def _mk(d):
             return c.asformat("dok")
         return sparse.GCXS.from_coo(c, compressed_axes=None if ca is None else tuple(ca))
     if t == "nd":
-        return np.array(d[1], dtype=d[2])
+        return _arr(d[1], d[2])
     if t == "scipy":
         import scipy.sparse as ss
-        return ss.csr_matrix(np.array(d[1], dtype=d[2]))
+        return ss.csr_matrix(_arr(d[1], d[2]))
     if t == "py":
         return d[1]
     if t == "tuple":
@@ -403,6 +411,8 @@ def _rand_dense(rng, shape, fill=0, lo=-3, hi=4):
     n = 1
     for s in shape:
         n *= s
+    if n == 0:
+        return ("zeros", list(shape))
     flat = [(rng.randint(lo, hi) if rng.random() < 0.55 else fill) for _ in range(n)]
     if n and all(v == fill for v in flat):
         flat[rng.randrange(n)] = fill + 1
@@ -676,6 +686,14 @@ AGREE_CLAUSE = {1: (None, "value"), 2: ("two_algorithm_paths_disagree", "value")
 
 def _show_call(sp, ad, kd):
     def sh(d):
+        if d[0] in ("sp", "nd", "scipy") and isinstance(d[3] if d[0] == "sp" else d[1], tuple):
+            z = "np.zeros(%r, dtype=%r)" % (tuple((d[3] if d[0] == "sp" else d[1])[1]), d[5] if d[0] == "sp" else d[2])
+            if d[0] == "nd":
+                return z
+            if d[0] == "scipy":
+                return "scipy.sparse.csr_matrix(%s)" % z
+            return {"coo": "sparse.COO.from_numpy(%s)" % z, "dok": "sparse.COO.from_numpy(%s).asformat('dok')" % z,
+                    "gcxs": "sparse.GCXS.from_numpy(%s, compressed_axes=%r)" % (z, d[2])}[d[1]]
         if d[0] == "sp":
             arr = "np.array(%r)" % (d[3],) if d[5] == "int64" else "np.array(%r, dtype=%r)" % (d[3], d[5])
             return {"coo": "sparse.COO.from_numpy(%s, fill_value=%r)" % (arr, d[4]),
@@ -803,6 +821,8 @@ NONCOMMUTATIVE = ("subtract", "power", "floor_divide", "divide", "remainder", "g
 
 def _ndim(d):
     x = d[3] if d[0] == "sp" else d[1] if d[0] in ("nd", "scipy") else None
+    if isinstance(x, tuple) and x and x[0] == "zeros":
+        return len(x[1])
     n = 0
     while isinstance(x, list):
         n += 1
@@ -871,6 +891,67 @@ def _order_cases(T, rng, tier):
                     ocases.append({"calls": calls, "ref": (u, "reduce", [x2], {"axis": ("py", ax)})})
                     ometa.append((cls, u, "reduce", "axis%d" % ax, fmt))
     return ocases, ometa
+
+
+def _product_cases(T, rng, tier):
+    """products (matmul, dot, tensordot, kron, outer): every spelling against each other AND against NumPy on the dense
+    operands (shape, dtype, values), with operands of unequal rank, all-1 batch extents and zero-length extents"""
+    nsnames = {n for n, e in T["namespace"]}
+    pc, pm = [], []
+
+    def dn(shape):
+        return ("nd", _rand_dense(rng, shape, 0), "int64")
+    MAT = [((3, 4, 5), (1, 1, 5, 6), "a3_b4_unit_batch"), ((1, 1, 3, 4), (4, 2), "a4_unit_batch_b2"),
+           ((2, 1, 3, 4), (1, 2, 4, 2), "batch_broadcast"), ((2, 3, 4), (1, 4, 2), "b_unit_batch_same_rank"),
+           ((2, 3), (3,), "matrix_vector"), ((3,), (3, 2), "vector_matrix"), ((2, 2, 3), (3,), "stack_vector"),
+           ((2, 0), (0, 3), "zero_inner"), ((0, 3), (3, 2), "zero_rows"), ((2, 3, 0), (2, 0, 4), "batched_zero_inner")]
+    DOT = [((2, 3), (3, 2), "2d_2d"), ((2, 3), (3,), "2d_1d"), ((2, 3, 4), (4,), "3d_1d"), ((3,), (3,), "1d_1d"),
+           ((2, 3, 4), (2, 4, 3), "3d_3d"), ((1, 1, 3, 4), (4, 2), "unit_batch"), ((2, 0), (0, 3), "zero_inner")]
+    TD = [((2, 3, 4), (4, 2), 1, "axes1"), ((2, 3, 4), (3, 4, 5), 2, "axes2"), ((2, 3), (4,), 0, "axes0_unequal_rank"),
+          ((1, 1, 3), (3, 1), 1, "unit_extents"), ((2, 0), (0, 3), 1, "zero_inner")]
+    KR = [((2, 3), (3, 2), "2d_2d"), ((2,), (2, 3), "1d_2d"), ((1, 1, 2), (2, 2), "3d_unit_2d"), ((2, 0), (3, 2), "zero_extent")]
+    OUT = [((3,), (2,), "1d_1d"), ((2, 3), (2,), "2d_1d"), ((1, 3), (1, 1, 2), "unit_extents")]
+    for fmt in _formats(tier):
+        cls = CLS_OF[fmt[0]]
+
+        def add(label, tag, calls, ref):
+            pc.append({"calls": calls, "ref": ref})
+            pm.append((cls, label, "product", tag, fmt))
+
+        def positions(sa, sb):
+            a, b = _sp(rng, fmt, sa, 0), _sp(rng, fmt, sb, 0)
+            return [(a, b, "sparse_sparse"), (a, dn(sb), "sparse_ndarray"), (dn(sa), b, "ndarray_sparse")]
+        for sa, sb, tag in MAT:
+            for a, b, pos in positions(sa, sb):
+                if tier == "quick" and pos != "sparse_sparse" and "zero" in tag:
+                    continue
+                calls = [(("ufunc", "matmul", "__call__"), [a, b], {}), (("namespace", "matmul"), [a, b], {}),
+                         (("operator", "matmul", "L" if a[0] == "sp" else "R"), [a, b], {})]
+                add("matmul", tag + "/" + pos, calls, ("matmul", "__call__", [a, b], {}))
+        for sa, sb, tag in DOT:
+            for a, b, pos in positions(sa, sb):
+                if pos != "sparse_sparse" and "zero" in tag:
+                    continue          # sparse.dot(sparse, ndarray with a zero extent) is C18's subject (watchdog)
+                calls = [(("numpy_function", "dot"), [a, b], {}), (("namespace", "dot"), [a, b], {})]
+                if a[0] == "sp" and fmt[0] != "dok":      # DOK has no .dot (part 1 reports that under its own clause)
+                    calls.append((("method", "dot"), [a, b], {}))
+                add("dot", tag + "/" + pos, calls, ("dot", "__call__", [a, b], {}))
+        for sa, sb, ax, tag in TD:
+            for a, b, pos in positions(sa, sb):
+                if pos != "sparse_sparse" and "zero" in tag:
+                    continue
+                kw = {"axes": ("py", ax)}
+                calls = [(("numpy_function", "tensordot"), [a, b], kw), (("namespace", "tensordot"), [a, b], kw)]
+                add("tensordot", tag + "/" + pos, calls, ("tensordot", "__call__", [a, b], kw))
+        for sa, sb, tag in KR:
+            a, b = _sp(rng, fmt, sa, 0), _sp(rng, fmt, sb, 0)
+            calls = [(("numpy_function", "kron"), [a, b], {}), (("namespace", "kron"), [a, b], {})]
+            add("kron", tag + "/sparse_sparse", calls, ("kron", "__call__", [a, b], {}))
+        for sa, sb, tag in OUT:
+            a, b = _sp(rng, fmt, sa, 0), _sp(rng, fmt, sb, 0)
+            calls = [(("numpy_function", "outer"), [a, b], {}), (("namespace", "outer"), [a, b], {})]
+            add("outer", tag + "/sparse_sparse", calls, ("outer", "__call__", [a, b], {}))
+    return pc, pm
 
 
 def _operator_spec():
@@ -990,6 +1071,8 @@ def campaign(build, tier, seed, report, budget=1):
     scases, smeta = _shape_cases(T, wrappers, rng, tier)
     wcases, wmeta = _sweep_cases(T, rng, tier)
     ocases, ometa = _order_cases(T, rng, tier)
+    pcases, pmeta = _product_cases(T, rng, tier)
+    ocases, ometa = ocases + pcases, ometa + pmeta
     t0 = time.time()
     keys = [("a", m[0]) for m in meta] + [("s", m[1]) for m in smeta] + [("w", i // 40) for i in range(len(wcases))] + \
         [("o", m[1], m[4][0]) for m in ometa]
@@ -1120,9 +1203,13 @@ def campaign(build, tier, seed, report, budget=1):
     for i, code in obad:
         cls, u, m, tag, fmt = ometa[i]
         clause, kind = OC[code]
+        if m == "product":
+            clause = None          # spellings of a product disagree (1) / agree but differ from NumPy on the dense operands (2)
         viol.append({"property": "C17", "op": u + "." + m, "kind": kind,
                      "clause": None if clause is None else clause.format(m=m.strip("_")), "format": cls,
                      "judge_code": code, "variant": tag,
+                     "what": {1: "the spellings disagree", 2: "the spellings agree with each other but not with NumPy on the "
+                              "densified operands (shape, dtype or values)", 7: "outcome kind contradicts the model"}.get(code, ""),
                      "case": {"format": fmt, "calls": [_show_call(*c) for c in ocases[i]["calls"]]},
                      "impl": [(o[0], o[1][:160], g) for o, g in zip(ores[i]["out"], ores[i]["np_ok"], strict=True)],
                      "replay_py": _replay(ocases[i]["calls"])})
